@@ -2,7 +2,7 @@ import re
 
 from prophyc import model
 from prophyc.model import DISC_SIZE, BUILTIN_SIZES
-from prophyc.generators.base import GenerateError, GeneratorBase, TranslatorBase, check_cpp_names
+from prophyc.generators.base import GenerateError, GeneratorBase, TranslatorBase, check_cpp_names, check_cpp_file_name
 from prophyc.generators.base import CPP_FULL_RUNTIME_NAMES, CPP_FULL_MEMBER_NAMES
 
 BUILTIN2C = {
@@ -638,6 +638,9 @@ class CppFullGenerator(GeneratorBase):
         ".ppf.hpp": _HppTranslator,
         ".ppf.cpp": _CppTranslator
     }
+
+    def check_file_name(self, base_name):
+        check_cpp_file_name(base_name)
 
     def check_nodes(self, nodes):
         """ a union holds `enum _discriminator` """
